@@ -355,10 +355,16 @@ func genC05(t *rapid.T) *c05Case {
 		for i := range small {
 			small[i] = 1 + (i*7)%23
 		}
-		if rapid.Bool().Draw(t, "long_dir") {
+		switch rapid.IntRange(0, 2).Draw(t, "long_dir") {
+		case 0:
 			c.C2S = small
-		} else {
+		case 1:
 			c.S2C = small
+		default:
+			// both directions at once: each side passes its own rotation
+			// boundary with records of the other direction in flight
+			c.C2S = small
+			c.S2C = append([]int(nil), small[:501]...)
 		}
 	}
 	c.FaultC2S = genRelayScript(t, "f_c2s", 80)
